@@ -57,6 +57,48 @@ theorem run_pinnedIR (P : List Obj) (π : List Nat → List Nat) (req : Request)
     generalize compile P π req.outputs none (Renames.enter (kwargs req) s) = c
     cases c <;> simp <;> (repeat' split) <;> simp_all
 
+/-! ## Option handling of `Graph`: which arguments a compiled graph has -/
+
+/-- `results(**outs).with_arguments(*l).to_onnx_model()`: the arguments are exactly `l` — order and
+    multiplicity as requested (no set is involved when arguments are requested). -/
+theorem compile_requested (P : List Obj) (π : List Nat → List Nat) (outs : List Entry) (l : List Nat)
+    (s : Store) (b : Built) (h : compile P π outs (some l) s = .ok b) :
+    b.args = l ∧ b.names = l.map s ∧ b.model.inputs.map (·.ty) = l.map (tyOf P) := by
+  unfold compile at h
+  simp only at h
+  repeat' split at h
+  all_goals cases h
+  all_goals simp [List.map_map, Function.comp_def]
+
+/-- `results(**outs).to_onnx_model()` (no arguments requested): the arguments are the discovered
+    ones, `all − claimed`, in the iteration order `π` of the set. -/
+theorem compile_discovered (P : List Obj) (π : List Nat → List Nat) (outs : List Entry)
+    (s : Store) (b : Built) (h : compile P π outs none s = .ok b) :
+    b.args = π (freeArgs P outs) ∧ b.names = (π (freeArgs P outs)).map s := by
+  unfold compile at h
+  simp only at h
+  repeat' split at h
+  all_goals cases h
+  all_goals simp
+
+/-- A compiled graph never has an argument twice, and every argument an output depends on is one
+    of its arguments (else `compile_graph` fails with ScopeError / KeyError). -/
+theorem compile_args_sound (P : List Obj) (π : List Nat → List Nat) (outs : List Entry)
+    (ra : Option (List Nat)) (s : Store) (b : Built) (h : compile P π outs ra s = .ok b) :
+    hasDup b.args = false ∧ ∀ a ∈ freeArgs P outs, a ∈ b.args := by
+  unfold compile at h
+  simp only at h
+  repeat' split at h
+  all_goals cases h
+  all_goals simp_all
+
+/-- `graph = results(**outputs)` forgets arguments requested earlier (a fresh Graph): only a
+    `with_arguments` *after* it counts — the order of the two statements in `build` matters. -/
+theorem results_resets_arguments (P : List Obj) (π : List Nat → List Nat) (req : Request) (s : Store)
+    (r : List WStmt) (l : Locals) :
+    execW P π req s (.results :: r) l =
+      execW P π req s r { l with graphOuts := some req.outputs, graphArgs := none } := rfl
+
 theorem goodShape_eq {ir : List Stmt} (h : goodShape ir = true) : ir = fixedIR := by
   unfold goodShape at h
   exact of_decide_eq_true h
